@@ -13,4 +13,34 @@ PROPS = {
         "rule": "boundary values of both constructors (0, unit-1, unit, unit+1, 4294..4296, (2^32-1)*unit+unit-1, first value past the guard, powers of two) plus seeded random u64 in four strata (full range, inside the guard, small, seconds*unit+sub).",
         "assumptions": ["u64 arithmetic modelled as N with explicit `as u32` wrap and checked u32 multiplication"],
     },
+    "C01": {
+        "rule": "op 20: seeded well-formed messages (every payload kind incl. network trace, both byte orders, all optional header fields, 0-255 arguments of every kind/width/VARI/TRAI/coding, multi-byte UTF-8, float specials, boundary totals 65534/65535) x suffixes (empty, 1 byte, pattern, another message, 0xff run, random).",
+    },
+    "C03": {
+        "rule": "op 21 (parse + use of the result), ops 10/11/12/3 on hostile inputs: mutated/truncated/length-corrupted/NOAR-corrupted well-formed messages, hand-made dialect and malformed encodings, random bytes, junk prefixes, inputs > 64 KiB with a 0xffff-sized string/raw argument; storage mode both ways; a third with a filter.",
+    },
+    "C04": {
+        "rule": "ops 8/10/25 on hostile and dialect inputs concentrated on messages whose argument encoding is shorter/longer than the declared payload, NOAR too small/large, trailing garbage; half of them with a filter.",
+    },
+    "C05": {
+        "rule": "op 23: every cut position 0..len-1 of seeded well-formed messages (all payload kinds, both storage modes), a third with a filter; the skipper on every cut of storage-header messages.",
+    },
+    "C06": {
+        "rule": "op 12 on pattern-dense strings over {D,L,T,01,00}; op 24 junk ++ message ++ rest with junk tails that are partial patterns/near misses; op 29 streams of 1-5 messages separated by junk.",
+    },
+    "C09": {
+        "rule": "op 26: well-formed messages (a third forced to log messages incl. invalid levels) x filter configurations (each criterion absent/present, sets containing/not containing the message's ids, duplicated ids, counts around the set sizes, all level numbers); op 27 both conversions incl. all 256 level numbers.",
+    },
+    "C13": {
+        "rule": "op 13: lists of 0-5 signal types x exact payloads, every truncation (a quarter of the cases) or one random truncation, trailing bytes, strings with invalid UTF-8 / NUL, both byte orders; a tenth include fixed-point signal types.",
+    },
+    "C15": {
+        "rule": "op 14: well-formed arguments of every kind (some with blobs up to 65000 bytes) x byte order; op 15: configurations of every payload kind, with and without extended header, optional add_storage_header.",
+    },
+    "C16": {
+        "rule": "op 28: dialect (unused type-info bits, bool with any TYLE, NUL-padded/invalid-UTF-8 ids, interior NULs, size-0 strings, reserved SCOD, unknown MSTP/MTIN) and mutated inputs; the chain parse -> serialise -> parse -> serialise is compared token for token.",
+    },
+    "C19": {
+        "rule": "op 3: all strings of length <= 3 (quick) / <= 4 (thorough) over the 25-byte boundary alphabet x sizes 0..6, random strings up to 70000 bytes x sizes incl. 0 and 65535; op 8 on messages whose ids are arbitrary bytes.",
+    },
 }
